@@ -291,6 +291,21 @@ class ProvXMLSerializer(Serializer):
                 )
                 attributes.append((PROV["type"], value))
 
+            if rec_type == PROV_MEMBERSHIP:
+                members = [v for k, v in attributes if k == PROV_ATTR_ENTITY]
+                if len(members) > 1:
+                    # <prov:hadMember> listing several entities: one membership
+                    # relation per member (as the PROV-JSON reader does)
+                    others = [(k, v) for k, v in attributes if k != PROV_ATTR_ENTITY]
+                    bundle.new_record(
+                        rec_type, rec_id, others + [(PROV_ATTR_ENTITY, members[0])]
+                    )
+                    for member in members[1:]:
+                        bundle.new_record(
+                            rec_type, None, others + [(PROV_ATTR_ENTITY, member)]
+                        )
+                    continue
+
             rec = bundle.new_record(rec_type, rec_id, attributes)
 
             # Add the actual type in case a base type has been used.
